@@ -363,7 +363,7 @@ fn check(c: &EditCase, rec: &mut CaseRec) -> Verdict {
 }
 
 pub fn property() -> Property {
-    let families: Vec<Box<dyn Family>> = vec![prop_family("suspend-edit-probe", 25_000, 1_200_000, |_| case(), check)];
+    let families: Vec<Box<dyn Family>> = vec![prop_family("suspend-edit-probe", 100_000, 1_500_000, |_| case(), check)];
     Property {
         id: "C11",
         rule: "A grammar-generated program (INPUT/STOP allowed) is run for a generated number of calls and suspended (host break, STOP, or left idle after finishing/failing), so that suspension happens inside nested loops, subroutines, after partial READs and after DEFs (class histogram). Then one edit (add a new line, replace an existing line by different text, delete an existing line, or a rejected edit with an unterminated string / illegal character / bad numeral / multi-byte character for an existing or new number) and one probe (CONT, RETURN, NEXT of an open loop variable, READ+PRINT, call of a previously defined function, variable/cell probes, GOTO). Oracle after a successful edit: CAN'T CONTINUE / RETURN WITHOUT GOSUB / NEXT WITHOUT FOR / the first DATA item of the edited program in line order (or OUT OF DATA) / 0 for the vanished function, and every scalar and sample cell prints as before the edit. After a rejected edit the probe's result (error kind, output, whole continuation transcript) must equal that of a twin session suspended identically without the edit attempt. Non-trivial: the probed resource was live before the edit per the snapshot hook; distinct by (suspension class, edit kind, probe kind, program).",
